@@ -81,7 +81,8 @@ std::optional<ChunkRecord> ChunkStore::get_record(const ChunkId& id) {
     }
 
     if (std::chrono::steady_clock::now() >= it->second.expires_at) {
-        chunks_.erase(it);
+        // Expired: never served. The record stays until sweep_expired(), which wipes the
+        // persisted file and reports the expiry exactly once.
         return std::nullopt;
     }
 
